@@ -768,15 +768,15 @@ def _replay_graph_job(name, cfg, tier):
     world = CollectingWorld(cfg, f"R/{name}", cap=3000 if q else 30000)
     rp = rpl.Replayer(g, world)
     t0 = time.time()
-    rp.all_paths(4 if q else 5, budget_s=15 if q else 240)
+    rp.all_paths(4 if q else 5, budget_s=60 if q else 300)  # budgets are safety nets: both finish early
     n_exh = rp.paths
     total_edges = sum(len(v) for v in g.edges.values())
     # the graph is acyclic in time: a cover walk gets stuck at the horizon, so restart it from a
     # fresh world until nothing new is covered
     t_cover = time.time()
-    while len(rp.covered) < total_edges and time.time() - t_cover < (25 if q else 500):
+    while len(rp.covered) < total_edges and time.time() - t_cover < (90 if q else 600):
         before = len(rp.covered)
-        rp.greedy_cover(rp.steps + 100_000, rng(f"R{name}{rp.paths}"), budget_s=10 if q else 60, restart_every=10_000)
+        rp.greedy_cover(rp.steps + 100_000, rng(f"R{name}{rp.paths}"), budget_s=30 if q else 60, restart_every=10_000)
         if len(rp.covered) == before:
             break
     rp.random_walks(200 if q else 5000, 30, rng("Rw" + name))
